@@ -22,7 +22,7 @@ def _deep():
     """This module's OWN recursive helpers (build_expr, ev) walk 2049-term sums; the limit is raised only around
     them and restored before the implementation runs, so that recursion errors of the implementation stay visible."""
     old = sys.getrecursionlimit()
-    sys.setrecursionlimit(max(old, 20000))
+    sys.setrecursionlimit(max(old, 10**6))
     try:
         yield
     finally:
@@ -1139,9 +1139,15 @@ def inplace_check(rng, spec, hints, fresh):
     nv0 = len(spec["vars"]) - (1 if late_var else 0)
     xs = [m.int_var(lo, hi, nm) if nm is not None else m.int_var(lo, hi) for (nm, lo, hi) in spec["vars"][:nv0]]
     style = spec.get("iter", "list")
+    def add(c):
+        built = build_constraint(m, c, xs, style)
+        m.add(built)
+        if spec.get("twice") and c[0] != "lin":  # exactly what build_model does
+            m.add(built)
+
     try:
         for c in cons[:cut]:
-            m.add(build_constraint(m, c, xs, style))
+            add(c)
         bad, runs = [], 0
         for solver in rng.sample(SOLVERS, 2):  # warm every cache there might be
             guarded(lambda: m.solve(solver=solver, solution_limit=rng.choice(LIMITS)), timeout=20)
@@ -1150,7 +1156,7 @@ def inplace_check(rng, spec, hints, fresh):
             nm, lo, hi = spec["vars"][-1]
             xs.append(m.int_var(lo, hi, nm) if nm is not None else m.int_var(lo, hi))
         for c in cons[cut:]:
-            m.add(build_constraint(m, c, xs, style))
+            add(c)
     except (TypeError, ValueError):
         return [], 0
     m._c05_inputs = []
